@@ -32,7 +32,7 @@ func init() {
 			"per cell: DecryptBytes over plaintext lengths 0..33 (all residues mod 16, zero-byte tails) must return the exact bytes, Decrypt must unmarshal, and the encrypted Response must behave as its plaintext twin (outcome, data, flags); distinct = shape hash (cell, length mode, placement, outcome)",
 		Directed:   c11Directed,
 		Run:        c11Run,
-		MustHit:    []string{"key=field", "key=tls", "key=setter", "key=both", "sp_restart", "detached", "inline", "pkcs1v15", "oaep_sha512", "cbc", "gcm", "zero_tail", "len_mod16=0", "twin", "key_rotation", "advertised_method_exercised"},
+		MustHit:    []string{"key=field", "key=tls", "key=setter", "key=both", "sp_restart", "detached", "inline", "pkcs1v15", "oaep_sha512", "cbc", "gcm", "zero_tail", "len_mod16=0", "twin", "key_rotation", "advertised_method_exercised", "envelopes_differ_within_response"},
 		RandomRuns: map[string]int{"quick": 1200, "thorough": 8000},
 		Assumptions: []string{"encrypted layouts are exercised with signature checking on (with SkipSignatureValidation the library never decrypts; outside this property's quantifier)",
 			"OAEP / PKCS#1 v1.5 ciphertext bytes are not replayable in Go (hidden randomness) and are excluded from run digests"},
@@ -232,8 +232,9 @@ func c11Run(r *core.Run) {
 	// ---- part B: encrypted Response vs plaintext twin through the configured SP
 	r.Probe("twin")
 	now := s.Node.Now()
-	n := 1 + t.Int(2, "c11.n")
+	n := 1 + t.Int(3, "c11.n")
 	place := t.Int(3, "c11.place")
+	vary := t.Bool("c11.vary") // later assertions of the same Response use independently drawn envelopes
 	m := world.GenResponse(t, s.IdP, s.Fed, now, n, true)
 	s.ApplyPlacement(m, place, true)
 	lay := world.DrawLayout(t)
@@ -242,9 +243,15 @@ func c11Run(r *core.Run) {
 		r.HarnessError("issue twin: %v", err)
 		return
 	}
-	for _, a := range m.Assertions {
+	for i, a := range m.Assertions {
 		eo := *o
 		eo.Rand = t.SubRand("c11.rand2")
+		if vary && i > 0 {
+			eo = *world.DrawEncOpts(t, o.Recipient, spCert.DER)
+			if eo.Detached != o.Detached || eo.Digest != o.Digest || eo.KeyAlg != o.KeyAlg || (eo.EmbedCert == nil) != (o.EmbedCert == nil) {
+				r.Probe("envelopes_differ_within_response")
+			}
+		}
 		// (a plaintext that relies on the Response's namespace declarations instead of carrying its
 		// own is not generated: after exclusive canonicalisation of a signed Response the root no
 		// longer carries them, so the unchanged tree rejects that layout; see DESIGN.md 12)
